@@ -53,6 +53,23 @@ theorem old_spool_leaks (sysTmp : Path) (name : String) (d : Path) (body : Path 
   rw [hb _ _ hout]
   simp
 
+/-- **path input, concretely**: whatever chunk files `events_0_<i>.dat` the
+    conversion created in the temporary directory and however the call ended
+    (return, or an exception raised anywhere — any fault kind, position, byte
+    budget), the set of existing paths is the one before the call -/
+theorem path_call_clean (created : List String) (e : Exit) (d : Path) (w : World)
+    (hfresh : ∀ p ∈ w, below d p = false) (p : Path) :
+    p ∈ (bracket d (chunkBody created e) w).1 ↔ p ∈ w :=
+  pathCall_clean created e d w hfresh p
+
+/-- **generator input, concretely** (after the repair of F7): the spool
+    directory with `events.tab.gz` and the chunk directory are both gone, for
+    every exit; the exit reaches the caller -/
+theorem generator_call_clean (s d : Path) (created : List String) (e : Exit) (w : World)
+    (hs : ∀ p ∈ w, below s p = false) (hd : ∀ p ∈ w, below d p = false) (p : Path) :
+    (p ∈ (generatorCall s d created e w).1 ↔ p ∈ w) ∧ (generatorCall s d created e w).2 = e :=
+  ⟨generatorCall_clean s d created e w hs hd p, generatorCall_exit s d created e w⟩
+
 /-! non-vacuity: a body that creates two chunk files and raises -/
 example :
     let d : Path := ["tmp", "pyndl123"]
